@@ -383,11 +383,15 @@ type szHolder struct {
 	J any
 }
 
+// the library's own defaults, captured before anything changes them: "unmarshals under the default rule" means the
+// DefaultRule, MaxInputLength and MaxObjectKeys the package ships with, not values the harness would like them to have
+var szInitRule, szInitMaxLen, szInitMaxKeys = size.DefaultRule, size.MaxInputLength, size.MaxObjectKeys
+
 func szSetMarshalCfg(cfg int) func() {
 	o1, o2, o3 := size.DisableMarshalTextUnit, size.DisableMarshalJSONStringForm, size.DisableMarshalJSONObjectForm
 	o4, o5, o6 := size.DefaultRule, size.MaxInputLength, size.MaxObjectKeys
 	size.DisableMarshalTextUnit, size.DisableMarshalJSONStringForm, size.DisableMarshalJSONObjectForm = cfg&1 != 0, cfg&2 != 0, cfg&4 != 0
-	size.DefaultRule, size.MaxInputLength, size.MaxObjectKeys = size.RuleEnableJSONStringForm|size.RuleEnableJSONObjectForm, 128, 16
+	size.DefaultRule, size.MaxInputLength, size.MaxObjectKeys = szInitRule, szInitMaxLen, szInitMaxKeys
 	return func() {
 		size.DisableMarshalTextUnit, size.DisableMarshalJSONStringForm, size.DisableMarshalJSONObjectForm = o1, o2, o3
 		size.DefaultRule, size.MaxInputLength, size.MaxObjectKeys = o4, o5, o6
